@@ -1368,3 +1368,36 @@ def _softmax(eng, func, args, kwargs, out, pre):
 def _logsigmoid(eng, func, args, kwargs, out, pre):
     a = obj(pre.a(0))
     eng.set_terms(out[0], vec(lambda x: tm.fn("log", tm.fn("sigmoid", x)), 1)(a))
+
+
+# ------------------------------------------------------------------ max pooling (value = max over the window; indices data-dependent)
+@handler("max_pool2d_with_indices", "max_pool3d_with_indices")
+def _max_pool(eng, func, args, kwargs, out, pre):
+    x = obj(pre.args[0])
+    nd = 2 if "2d" in base_name(func) else 3
+    ks = list(args[1])
+    stride = list(args[2]) if len(args) > 2 and args[2] else ks
+    padding = list(args[3]) if len(args) > 3 else [0] * nd
+    dilation = list(args[4]) if len(args) > 4 else [1] * nd
+    ks, stride, padding, dilation = [(v * nd if len(v) == 1 else v) for v in (ks, stride, padding, dilation)]
+    vals, idx = out
+    lead = x.shape[:-nd]
+    sp = x.shape[-nd:]
+    res = np.empty(tuple(vals.shape), dtype=object)
+    with eng.suspended():
+        ii = idx.detach().cpu().numpy()
+    for pos in np.ndindex(*lead):
+        for opos in np.ndindex(*vals.shape[-nd:]):
+            window = []
+            for kpos in np.ndindex(*ks):
+                ipos = tuple(opos[d] * stride[d] - padding[d] + kpos[d] * dilation[d] for d in range(nd))
+                if all(0 <= ipos[d] < sp[d] for d in range(nd)):
+                    window.append(ipos)
+            flat = int(ii[pos + opos])
+            chosen = tuple(int(v) for v in np.unravel_index(flat, sp))
+            ct = x[pos + chosen]
+            for ipos in window:
+                if ipos != chosen:
+                    eng.branch(tm.le(x[pos + ipos], ct), True)
+            res[pos + opos] = ct
+    eng.set_terms(vals, res)
